@@ -34,6 +34,14 @@ func mkDeputies(n int, base int) types.DeputyNodes {
 	return ds
 }
 
+func addrsOf(ds types.DeputyNodes) []string {
+	var l []string
+	for _, d := range ds {
+		l = append(l, new(big.Int).SetBytes(d.MinerAddress[:]).String())
+	}
+	return l
+}
+
 func resDeputy(d *types.DeputyNode, err error) string {
 	if err != nil {
 		if err == deputynode.ErrNotDeputy {
@@ -98,7 +106,13 @@ func c13(c *Ctx) {
 	for iter < c.N {
 		n0 := 1 + c.Rnd.Intn(maxN)
 		n1 := 1 + c.Rnd.Intn(maxN)
-		dm := deputynode.NewManager(maxN+5, noBlocks{})
+		// seats: usually more than any term has nodes; one case in four fewer, so that the list is cut to the seats
+		seats := maxN + 5
+		if c.Rnd.Intn(4) == 0 {
+			seats = 1 + c.Rnd.Intn(maxN)
+			c.Count("manager:fewer-seats-than-nodes-possible")
+		}
+		dm := deputynode.NewManager(seats, noBlocks{})
 		t0 := mkDeputies(n0, 100)
 		t1 := mkDeputies(n1, 200)
 		// share some members between terms, at different ranks
@@ -123,10 +137,33 @@ func c13(c *Ctx) {
 		for rep := 0; rep < 12 && iter < c.N; rep++ {
 			iter++
 			h := heights[c.Rnd.Intn(len(heights))]
-			deps := dm.GetDeputiesByHeight(h, true)
+			// GROUND TRUTH by construction (harness constants T=10, I=3, not deputynode.*): heights 1..13 are signed by the
+			// list snapshotted at 0, 14..23 by the one snapshotted at 10, 24..33 by the one snapshotted at 20; the first
+			// height of a list (and height 1) restarts the rotation. The manager's answers are compared with it, and the
+			// op lines below carry the constructed values, so a change of the term selection cannot blind the model.
+			wantDeps, wantSpecial := t0, h == 1 || h == 14 || h == 24
+			if h >= 14 && h <= 23 {
+				wantDeps = t1
+			}
+			if len(wantDeps) > seats {
+				wantDeps = wantDeps[:seats]
+				c.Count("manager:list-cut-to-seats")
+			}
+			got := dm.GetDeputiesByHeight(h, true)
+			same := len(got) == len(wantDeps)
+			for i := 0; same && i < len(got); i++ {
+				same = got[i].MinerAddress == wantDeps[i].MinerAddress && got[i].Rank == uint32(i)
+			}
+			if !same || dm.GetDeputiesCount(h) != len(wantDeps) {
+				c.Fail("c13/fed-fact/term", fmt.Sprintf("height %d (T=10, I=3, %d seats, terms of %d / %d / %d nodes snapshotted at 0 / 10 / 20): GetDeputiesByHeight returns %d deputies %v, the list that governs the height by construction has %d", h, seats, n0, n1, n0, len(got), addrsOf(got), len(wantDeps)), nil)
+			}
+			if sp := h == 1 || deputynode.IsRewardBlock(h); sp != wantSpecial {
+				c.Fail("c13/fed-fact/special", fmt.Sprintf("height %d (T=10, I=3): IsRewardBlock says %v, by construction the rotation restarts here: %v", h, deputynode.IsRewardBlock(h), wantSpecial), nil)
+			}
+			deps := wantDeps
 			n := len(deps)
-			special := h == 1 || deputynode.IsRewardBlock(h)
-			c.Op(fmt.Sprintf("special %d", h), fmt.Sprintf("%v", special))
+			special := wantSpecial
+			c.Op(fmt.Sprintf("special %d", h), fmt.Sprintf("%v", h == 1 || deputynode.IsRewardBlock(h)))
 			rankOf := func(a common.Address) int {
 				for _, d := range deps {
 					if d.MinerAddress == a {
